@@ -39,7 +39,7 @@ func (Prop) Describe() core.Description {
 		Notes: map[string]string{
 			"sim_time_note": "C20 has no clock in it; sim_time_ns is 0 by construction",
 		},
-		RequiredProbesQuick: []string{"panic_recovered_call", "panic_recovered_hook", "error_with_data", "wrong_data_only", "inapplicable_faulty", "goexit_env", "invalid_regexp", "lacking_interface", "lacking_interface_all_inapplicable", "typehelper_used", "nil_receiver", "nil_value_unmarshal", "nil_interface_value", "long_list"},
+		RequiredProbesQuick: []string{"panic_recovered_call", "panic_recovered_hook", "error_with_data", "wrong_data_only", "inapplicable_faulty", "goexit_env", "invalid_regexp", "lacking_interface", "lacking_interface_all_inapplicable", "typehelper_used", "nil_receiver", "nil_value_unmarshal", "nil_interface_value", "long_list", "before_hook_adjusts_case", "asymmetric_typehelper_wildcard"},
 	}
 }
 
@@ -59,7 +59,65 @@ const mainBlock = nBeh * numHooks * numHooks * numPreds * nCons * nPos
 
 // EnumSize implements core.Property: 6 helpers x 2 shapes x (1 or 2 TypeHelper variants) main
 // blocks, then the nil-receiver block, then the lacking-interface block.
-func (Prop) EnumSize(tier string) int { return enumMain() + enumNil() + enumLacking() + enumNilValue() }
+func (Prop) EnumSize(tier string) int {
+	return enumMain() + enumNil() + enumLacking() + enumNilValue() + enumExtras()
+}
+
+// extras: (a) the Before hook adjusts the expectation of its own case: 6 helpers x {V, *P} x
+// behaviour x position; (b) ways of being wrong x payload ending in a newline or not: 6 x 2 x
+// numWrong x 2 x {right, wrong}; (c) asymmetric TypeHelper with an open payload: 3 unmarshal
+// helpers x {V, *P} x behaviour x position
+func enumExtras() int { return 6*2*nBeh*nPos + 6*2*numWrong*2*2 + 3*2*nBeh*nPos }
+
+func extraSpec(r int) (ls listSpec, ok bool) {
+	a := 6 * 2 * nBeh * nPos
+	b := 6 * 2 * numWrong * 2 * 2
+	switch {
+	case r < a:
+		c := caseSpec{payload: "x", adjust: true}
+		c.beh = r % nBeh
+		r /= nBeh
+		pos := r % nPos
+		r /= nPos
+		ls.shape = r % 2
+		r /= 2
+		ls.enc, ls.dir = r/2, r%2
+		if c.beh == bPanicAfterSet && ls.dir == dirMarshal {
+			return ls, false
+		}
+		ls.cases = place(c, pos)
+	case r < a+b:
+		r -= a
+		c := caseSpec{payload: "x"}
+		if r%2 == 1 {
+			c.beh = bWrong
+		}
+		r /= 2
+		if r%2 == 1 {
+			c.payload = "line\n"
+		}
+		r /= 2
+		c.wrongKind = r % numWrong
+		r /= numWrong
+		ls.shape = r % 2
+		r /= 2
+		ls.enc, ls.dir = r/2, r%2
+		ls.cases = []caseSpec{c}
+	default:
+		r -= a + b
+		c := caseSpec{payload: "x", wildcard: true}
+		c.beh = r % nBeh
+		r /= nBeh
+		pos := r % nPos
+		r /= nPos
+		ls.shape = r % 2
+		r /= 2
+		ls.enc, ls.dir, ls.typeHelper = r, dirUnmarshal, 2
+		ls.cases = place(c, pos)
+	}
+	normalise(&ls)
+	return ls, true
+}
 
 // nil pointer as the listed value, unmarshal direction, *P: 3 encodings x behaviour x predicate x constraint x position x TypeHelper
 func enumNilValue() int { return 3 * nBeh * numPreds * nCons * nPos * 2 }
@@ -91,7 +149,7 @@ func enumSpec(i int) (ls listSpec, ok bool) {
 		helper := blk / 4
 		shape := (blk / 2) % 2
 		th := blk%2 == 1
-		ls.enc, ls.dir, ls.shape, ls.typeHelper = helper/2, helper%2, shape, th
+		ls.enc, ls.dir, ls.shape, ls.typeHelper = helper/2, helper%2, shape, int(b2u(th))
 		if th && ls.dir == dirMarshal {
 			return ls, false // marshal helpers take no TypeHelper
 		}
@@ -138,10 +196,13 @@ func enumSpec(i int) (ls listSpec, ok bool) {
 		return ls, true
 	}
 	i -= enumNil()
+	if i >= enumLacking()+enumNilValue() {
+		return extraSpec(i - enumLacking() - enumNilValue())
+	}
 	if i >= enumLacking() {
 		r := i - enumLacking()
 		c := caseSpec{payload: "x", nilValue: true}
-		ls.typeHelper = r%2 == 1
+		ls.typeHelper = r % 2
 		r /= 2
 		enc := r % 3
 		r /= 3
@@ -215,7 +276,7 @@ func classOf(ls listSpec, l *listRun) (nontrivial bool, classes []uint64) {
 		if l.failures[i] > 0 {
 			verdict = 1
 		}
-		h.Add(uint64(ls.enc*2+ls.dir)<<40 | uint64(ls.shape)<<32 | uint64(pos)<<28 | uint64(c.constraint)<<24 | uint64(c.beh)<<16 | uint64(c.before)<<12 | uint64(c.after)<<8 | uint64(c.pred)<<4 | uint64(verdict)<<1 | b2u(ls.typeHelper) | b2u(c.nilValue)<<44 | b2u(c.nilIface)<<45)
+		h.Add(uint64(ls.enc*2+ls.dir)<<40 | uint64(ls.shape)<<32 | uint64(pos)<<28 | uint64(c.constraint)<<24 | uint64(c.beh)<<16 | uint64(c.before)<<12 | uint64(c.after)<<8 | uint64(c.pred)<<4 | uint64(verdict)<<1 | uint64(ls.typeHelper)<<50 | b2u(c.adjust)<<46 | uint64(c.wrongKind)<<52 | b2u(c.wildcard)<<47 | b2u(c.nilValue)<<44 | b2u(c.nilIface)<<45)
 		classes = append(classes, uint64(h))
 	}
 	if !ls.hasInterface() && len(ls.cases) > 0 {
@@ -311,6 +372,12 @@ func probes(res *core.Result, ls listSpec, l *listRun) {
 		if c.nilValue {
 			res.Probes.Inc("nil_value_unmarshal")
 		}
+		if c.adjust {
+			res.Probes.Inc("before_hook_adjusts_case")
+		}
+		if c.wildcard {
+			res.Probes.Inc("asymmetric_typehelper_wildcard")
+		}
 		if c.pred == pMatchInvalid {
 			res.Probes.Inc("invalid_regexp")
 			res.Faults.Inc("predicate_invalid_regexp")
@@ -321,9 +388,9 @@ func probes(res *core.Result, ls listSpec, l *listRun) {
 func finish(res *core.Result, ls listSpec, o core.RunOpts, extraTrace []string) *core.Result {
 	l, escaped := execList(ls, o.KeepTrace)
 	h := core.NewHash()
-	h.Add(uint64(ls.enc*2+ls.dir)<<8 | uint64(ls.shape)<<4 | b2u(ls.goexit)<<1 | b2u(ls.typeHelper))
+	h.Add(uint64(ls.enc*2+ls.dir)<<8 | uint64(ls.shape)<<4 | b2u(ls.goexit)<<1 | uint64(ls.typeHelper)<<2)
 	for _, c := range ls.cases {
-		h.Add(uint64(c.constraint)<<24 | uint64(c.beh)<<16 | uint64(c.before)<<12 | uint64(c.after)<<8 | uint64(c.pred) | b2u(c.nilValue)<<28 | b2u(c.nilIface)<<29)
+		h.Add(uint64(c.constraint)<<24 | uint64(c.beh)<<16 | uint64(c.before)<<12 | uint64(c.after)<<8 | uint64(c.pred) | b2u(c.nilValue)<<28 | b2u(c.nilIface)<<29 | b2u(c.adjust)<<30 | uint64(c.wrongKind)<<32 | b2u(c.wildcard)<<31)
 	}
 	for _, e := range l.events {
 		h.AddString(e.what)
@@ -398,7 +465,10 @@ func genCase(t *core.Tape) caseSpec {
 	}
 	c.nilValue = t.Bool(1, 8)
 	c.nilIface = t.Bool(1, 6)
-	c.payload = [...]string{"p", "", "payload with spaces", "{\"k\":1}", "\x00\xff", "~"}[t.Choose(6)]
+	c.adjust = t.Bool(1, 8)
+	c.wrongKind = t.Choose(numWrong)
+	c.wildcard = t.Bool(1, 4)
+	c.payload = [...]string{"p", "", "payload with spaces", "{\"k\":1}", "\x00\xff", "~", "line\n", "100% %s"}[t.Choose(8)]
 	return c
 }
 
@@ -411,7 +481,9 @@ func (Prop) Run(t *core.Tape, o core.RunOpts) *core.Result {
 	ls.enc, ls.dir = h/2, h%2
 	ls.shape = shapeWeights[t.Choose(len(shapeWeights))]
 	ls.goexit = t.Bool(1, 3)
-	ls.typeHelper = ls.dir == dirUnmarshal && t.Bool(1, 3)
+	if ls.dir == dirUnmarshal && t.Bool(1, 3) {
+		ls.typeHelper = 1 + t.Choose(2)
+	}
 	n := t.Choose(13)
 	if t.Bool(1, 40) {
 		n = 13 + t.Choose(52) // once in a while a long list
